@@ -27,6 +27,15 @@ import (
 
 const Root = "/verif"
 
+// OutRoot is where .work, evidence and replays go: /verif, unless VERIF_OUT relocates a trial run against a scratch copy of the
+// library (seeded changes tried in parallel); registered checks never set it.
+var OutRoot = func() string {
+	if o := os.Getenv("VERIF_OUT"); o != "" {
+		return o
+	}
+	return Root
+}()
+
 // Out is the check's real standard output. While a check runs, os.Stdout is nil (writes are refused without a system call) because the
 // library itself prints debug lines to it (state resolution v2.1 does); only the harness writes results.
 var Out = os.Stdout
@@ -379,10 +388,10 @@ func Try(f func()) (panicked bool, msg string) {
 
 func (r *Run) finish() {
 	wall := time.Since(r.start).Seconds()
-	_ = os.MkdirAll(filepath.Join(Root, "replays"), 0o755)
-	_ = os.MkdirAll(filepath.Join(Root, "evidence"), 0o755)
+	_ = os.MkdirAll(filepath.Join(OutRoot, "replays"), 0o755)
+	_ = os.MkdirAll(filepath.Join(OutRoot, "evidence"), 0o755)
 	for i, v := range r.violations {
-		p := filepath.Join(Root, "replays", fmt.Sprintf("%s-%d.json", r.ID, i+1))
+		p := filepath.Join(OutRoot, "replays", fmt.Sprintf("%s-%d.json", r.ID, i+1))
 		b, _ := json.MarshalIndent(map[string]interface{}{"property": r.ID, "key": v.Key, "what": v.What, "kind": v.Kind, "input": v.Input}, "", " ")
 		_ = os.WriteFile(p, b, 0o644)
 		v.Replay = p
@@ -427,7 +436,7 @@ func (r *Run) finish() {
 		"assumptions": r.assumptions, "wall_s": wall, "violations": r.nViol,
 	}
 	b, _ := json.MarshalIndent(ev, "", " ")
-	if err := os.WriteFile(filepath.Join(Root, "evidence", r.ID+".json"), b, 0o644); err != nil {
+	if err := os.WriteFile(filepath.Join(OutRoot, "evidence", r.ID+".json"), b, 0o644); err != nil {
 		fmt.Fprintln(os.Stderr, "HARNESS-ERROR: cannot write evidence:", err)
 		os.Exit(2)
 	}
